@@ -47,8 +47,16 @@ def stepMem (w : View) (i : Nat) (m : Nat → α) : Nat → α :=
 def scanMem (w : View) (m : Nat → α) : Nat → α :=
   (strides w.L).foldl (fun m i => stepMem op w i m) m
 
-/-- `cumops(view, dim, ops)` = `cumops_(view.clone(), …)`: the clone is a fresh contiguous buffer
-starting at `top` (an address beyond everything allocated); returns the new storage. -/
+/-- `cumops_` with torch's own guard: `index_copy_` refuses to write through a view in which two elements share
+an address ("unsupported operation: more than one element of the written-to tensor refers to a single memory
+location") — `none` models that `RuntimeError`. -/
+def scanMemChecked (w : View) (m : Nat → α) : Option (Nat → α) :=
+  if w.nonOverlapB then some (scanMem op w m) else none
+
+/-- `cumops(view, dim, ops)` = `cumops_(view.clone(), …)`: the clone is fresh storage starting at `top` (an
+address beyond everything allocated). The model lays the clone out fibre-major; torch's `clone()` keeps the
+input's dimension order (`preserve_format`), which permutes addresses inside the fresh block but not which
+logical element holds which value — results are compared logically. Returns the new storage. -/
 def cloneView (w : View) (top : Nat) : View := ⟨w.F, w.L, fun f j => top + f * w.L + j⟩
 
 def copyTo (w : View) (top : Nat) (m : Nat → α) : Nat → α :=
